@@ -218,7 +218,10 @@ def attribute(j, prop, known):
     deviation trigger holds for the case (computed by TauKnown!Devs inside TLC) and the clause
     that judged the event is one the finding lists."""
     for k in known:
-        if k.get("status") != "open" or prop not in k.get("properties", []):
+        # an open finding is a defect of the ENGINE: it can surface in the run of any property whose
+        # clauses it may explain (its `properties` field says which properties it violates, not where
+        # it may be seen)
+        if k.get("status") != "open":
             continue
         if k.get("dev") in j.get("devs", []) and j.get("rule") in k.get("rules", []):
             if k.get("model_explains") and not explained_by_model(j):
